@@ -7,7 +7,8 @@ LEVEL_TEXT = ("RtpPack.tla states the contract of the packets the server generat
               "enumerates codec x entry branch (non-RTP publisher, forced remux, oversized incoming packets) x M in {200,1440,1460} (thorough: seven values from 100 to 1460) "
               "x sequences of payload-size classes around M; every run is executed on a real Stream/SubStream through "
               "subStreamFormat.writeUnitInner / newRTPEncoder, the packets are depacketized with newRTPDecoder and TLC judges "
-              "the observed packets")
+              "the observed packets, per unit and over everything the format emits while re-packetization is active (RTP publishers: "
+              "frames arriving in several oversized or small fragments, packets that yield no payload)")
 LEVEL_NOTE = ("contract of the packets only (packetization bytes are gortsplib's); 12 codecs (not MJPEG, MPEG-1 audio/video, "
               "MPEG-4 audio LATM, FLAC); for sample-based audio and audio units with several frames the timestamp formula covers "
               "the first packet of the unit only (later packets must advance by RTP's rules); AC-3 sizes are the table sizes "
@@ -39,17 +40,30 @@ def run(ctx):
     seen = set()
     for bad in tv.tagged("BAD"):
         rec = recs[bad["l"] - 1]
-        u = rec["units"][bad["unit"] - 1]
-        key = (bad["monitor"], rec["codec"], rec["branch"], rec["m"], u["class"])
+        k = bad["unit"]
+        u = rec["units"][k - 1] if k >= 1 else None
+        cls = u["class"] if u else "run"
+        key = (bad["monitor"], rec["codec"], rec["branch"], rec["m"], cls)
         if key in seen:
             continue
         seen.add(key)
-        ctx.violation({"monitor": bad["monitor"], "codec": rec["codec"], "branch": rec["branch"], "m": rec["m"],
-                       "class": u["class"]},
-                      "%s fails for %s (%s, maximum payload %d): unit of class %s (element sizes %s, pts %s) -> packets %s; "
-                      "delivered payload %s, depacketized %s"
-                      % (bad["monitor"], rec["codec"], rec["branch"], rec["m"], u["class"], u["sizes"][:5], u["pts"],
-                         [(p["len"], p["seq"], p["tsoff"]) for p in u["pkts"]][:6], u["psig"][:4], u["dsig"][:4]))
+        record = {"monitor": bad["monitor"], "codec": rec["codec"], "branch": rec["branch"], "m": rec["m"], "class": cls}
+        if bad["scope"] == "unit":
+            ctx.violation(record,
+                          "%s fails for %s (%s, maximum payload %d): unit of class %s (element sizes %s, pts %s) -> packets %s; "
+                          "delivered payload %s, depacketized %s"
+                          % (bad["monitor"], rec["codec"], rec["branch"], rec["m"], u["class"], u["sizes"][:5], u["pts"],
+                             [(p["len"], p["seq"], p["tsoff"]) for p in u["pkts"]][:6], u["psig"][:4], u["dsig"][:4]))
+        else:
+            classes = [(x["class"], x.get("inPkts", 0)) for x in rec["units"]]
+            em = [(e["unit"], "nil payload" if e["nilp"] else "payload", [(p["len"], p["seq"]) for p in e["pkts"]][:5])
+                  for e in rec["emits"] if e["active"]]
+            ctx.violation(record,
+                          "%s fails over everything emitted while re-packetization is active for %s (%s, maximum payload %d): "
+                          "frames (class, incoming packets) %s; emissions (frame, payload, packets as (length, sequence number)) "
+                          "%s; delivered elements %s, depacketized as one stream %s, depacketizer errors %s"
+                          % (bad["monitor"], rec["codec"], rec["branch"], rec["m"], classes, em[:12],
+                             [x["len"] for x in rec["pel"]][:12], [x["len"] for x in rec["del"]][:12], rec["derrs2"][:3]))
     drift = tv.tagged("DRIFT")
     ctx.set("runs", len(cases))
     ctx.set("units_packetized_by_server", gen)
@@ -65,7 +79,15 @@ def run(ctx):
     for (codec, msg), n in sorted(why.items())[:8]:
         ctx.note("%d %s unit(s) rejected (no packets generated): %s" % (n, codec, msg))
     if drift:
-        ctx.note("%d runs where sequence numbers do not continue across units (DRIFT, not a verdict)" % len(drift))
+        ctx.note("%d runs where a call without payload emitted packets while re-packetization was active (DRIFT from the "
+                 "code-shaped expectation, not a verdict)" % len(drift))
+    frag = sum(1 for x in recs if x["branch"] != "nonrtp" for u in x["units"] if u.get("inPkts", 0) >= 2)
+    silent = sum(1 for x in recs for e in x["emits"] if e["active"] and e["nilp"])
+    if frag < 100 or silent < 100:
+        raise vf.Infra("only %d fragmented incoming frames / %d payload-less calls under re-packetization" % (frag, silent))
+    ctx.set("incoming_frames_in_several_packets", frag)
+    ctx.set("calls_without_payload_while_repacketizing", silent)
+    ctx.set("emissions_judged", sum(1 for x in recs for e in x["emits"] if e["active"]))
     mid = recs[len(recs) // 2]
     ctx.sample({"run": {k: mid[k] for k in ("codec", "branch", "m")},
                 "unit": {k: mid["units"][0][k] for k in ("class", "sizes", "generated", "pkts")}})
